@@ -323,13 +323,15 @@ func (packet *Packet) IsOK() bool {
 	return isOkPacket
 }
 
-// IsEOF return true if packet is OkPacket or EOFPacket
+// IsEOF return true if packet ends a list of column definitions or rows: an EOFPacket or, with
+// CLIENT_DEPRECATE_EOF, the OkPacket that replaces it
 func (packet *Packet) IsEOF() bool {
-	// https://dev.mysql.com/doc/internals/en/packet-OK_Packet.html
-	// https://dev.mysql.com/doc/internals/en/packet-EOF_Packet.html
-	isOkPacket := packet.data[0] == OkPacket && packet.GetPacketPayloadLength() > 7
-	isEOFPacket := packet.data[0] == EOFPacket && packet.GetPacketPayloadLength() < 9
-	return isOkPacket || isEOFPacket
+	// https://dev.mysql.com/doc/dev/mysql-server/latest/page_protocol_basic_ok_packet.html
+	// both start with the EOF header. The OK packet may carry an info string and session state information,
+	// so it is not limited to 8 bytes; a row starts with 0xfe only when its first value has 2^24 bytes or more,
+	// and then the payload is longer than one packet. A text row that starts with 0x00 (empty string in the
+	// first column) is a row.
+	return packet.data[0] == EOFPacket && len(packet.data) < MaxPayloadLen
 }
 
 // IsErr return true if packet has ErrPacket flag
